@@ -211,7 +211,6 @@ Definition tyguard_why (p : fcprog) : string :=
       else if negb (ctx_tyd D C (compile_ctx (fdctx d))) then "param-type-undeclared"
       else if negb (tg p D C (compile_ctx (fdctx d)) (fdbody d))
            then "body-typing-" ++ tg_diag 200 p D C (compile_ctx (fdctx d)) (fdbody d)
-      else if shadowing_risk (f_is_codata p) (fdbody d) [] then "shadow-risk"
       else "result-type"
   end.
 
